@@ -273,6 +273,12 @@ class ProvWorld:
         prov.__class__ = type('TracedProvider', (prov.__class__,), {'_transaction_id': property(getter, setter)})
         self._txid_value = value
 
+    def quiesce(self):
+        """the world is not shut down (that costs seconds); the process ends with os._exit"""
+        self.ctl.gating = False
+        for _ in range(64):
+            self.ctl.gate.release()
+
     def current_txid(self):
         if self.lock_trace is not None:
             return self._txid_value['v']
@@ -475,7 +481,6 @@ def run_prov(cases):
         out.append(tr)
         if tr['aborted']:
             break
-    pw.w.stop()
     return {'traces': out, 'queue_cap': pw.queue_cap, 'handles': pw.handles}
 
 
@@ -536,10 +541,10 @@ def run_conc(spec):
                 body_ = request_body(ex)
                 if b'OperationHandleRef' in body_:
                     wire.append([ex.client, parse_response(ex)])
+        pw.quiesce()
         out.append({'first_id': first_id, 'results': results, 'reports': reports, 'wire': wire, 'alive': alive,
                     'lock_trace': pw.lock_trace, 'errors': pw.ctl.errors,
                     'client_of': [sorted(n for n in pw.client_names(ci) if n) for ci in range(len(rnd))]})
-        pw.w.stop()
     return out
 
 
@@ -551,3 +556,6 @@ if 'prov' in req_in:
 if 'conc' in req_in:
     res['conc'] = run_conc(req_in['conc'])
 print(json.dumps(res))
+sys.stdout.flush()
+import os  # noqa: E402
+os._exit(0)       # background threads of the provider / consumers (housekeeping, worker) are not joined
